@@ -23,6 +23,8 @@ RULE = (
     "push(fresh letter) / pop / checkpoint..commit / checkpoint..rollback with at most 9 (quick) / 11 "
     "(thorough) operations, compiled to a grammar (commit = ( .. )? or ( .. | \"!\"), rollback = ( .. ~ \"!\")?, "
     "(( .. ~ \"!\") | \"\"), &( .. ), !( .. ~ \"!\")) followed by PEEK_ALL / POP_ALL / PEEK[..] ~ EOI, four modes. "
+    "(e) POP_ALL matrix: POP_ALL inside every committed / rolled-back construct x 0-3 entries before x entries "
+    "dropped or popped first (down to none left) x 0-2 fresh pushes before x 0-1 after, optionally nested. "
     "Non-trivial: (a) the reference undid a stack change on backtracking / "
     "after a predicate or an operation hit the empty stack; (b) the stack is non-empty or the operation "
     "fails; distinct by hash of the case."
